@@ -35,4 +35,12 @@ MUTANTS = [
     ("C12", "hdd-skips-last-symbol", P, "    for i in np.where(s>1)[0]: ", "    for i in np.where(s[:-1]>1)[0] if s.size > 3 else np.where(s>1)[0]: "),
     ("C12", "hdd-accepts-nonpow2", P, "    if not M & (M-1) == 0:\n        raise ValueError(\"`M` must be a power of 2.\")\n\n    if input.size % M != 0:", "    if not M & (M-1) == 0 and M != 12:\n        raise ValueError(\"`M` must be a power of 2.\")\n\n    if input.size % M != 0:"),
     ("C12", "enc-tuple-form-differs", P, "    elif isinstance(input, Array_Like):\n        input = np.array(input, dtype=bool)\n    else:\n        raise TypeError(\"`input` must be of type (str, list, tuple, ndarray, binary_sequence)\")\n\n    k = int(np.log2(M))\n\n    input = input[:len(input)//k*k] ", "    elif isinstance(input, Array_Like):\n        input = np.array(input[::-1] if isinstance(input, tuple) and len(input) > 9 else input, dtype=bool)\n    else:\n        raise TypeError(\"`input` must be of type (str, list, tuple, ndarray, binary_sequence)\")\n\n    k = int(np.log2(M))\n\n    input = input[:len(input)//k*k] "),
+    # ---- C04
+    ("C04", "tap23-17", D, "23: [23, 18],", "23: [23, 17],"),
+    ("C04", "seed-mod-2n-1", D, "seed = seed % (2**order) if seed is not None", "seed = seed % (2**order - 1) if seed is not None"),
+    ("C04", "state-before-last-shift", D, "        new = ((lfsr >> tap1) ^ (lfsr >> tap2)) & 1\n        lfsr = ((lfsr << 1) | new) & (1 << order) - 1\n        index += 1", "        new = ((lfsr >> tap1) ^ (lfsr >> tap2)) & 1\n        prev = lfsr\n        lfsr = ((lfsr << 1) | new) & (1 << order) - 1\n        index += 1\n    if return_seed and len % 7 == 3: lfsr = prev"),
+    ("C04", "default-len-2n", D, "        len = 2**order - 1\n", "        len = 2**order\n"),
+    ("C04", "tap31-27-late", D, "31: [31, 28],", "31: [31, 25],"),
+    ("C04", "no-warning-on-zero-seed", D, "        seed = 1\n        warnings.warn(", "        seed = 1\n        (lambda *a, **k: None)("),
+    ("C04", "mask-drops-msb-order20", D, "lfsr = ((lfsr << 1) | new) & (1 << order) - 1", "lfsr = ((lfsr << 1) | new) & ((1 << order) - 1 if order != 20 or index % 1048570 else (1 << order) - 2)"),
 ]
